@@ -27,6 +27,8 @@ def layout_config(endian='big', address_bits=16, origin=None, page_size=None, zo
     cfg['instructions']['ld16'] = {'bytecode': {'value': 0x20, 'size': 8},
                                    'operands': {'count': 1, 'operand_sets': {'list': ['imm16']}}}
     cfg['instructions']['nib'] = {'bytecode': {'value': 0xA, 'size': 4}}
+    # a macro whose steps are not whole bytes: two 4-bit instructions, each padded to its own byte
+    cfg['macros'] = {'nn2': [{'instructions': ['nib', 'nib']}]}
     mz = []
     if global_zone is not None:
         mz.append({'name': 'GLOBAL', 'start': global_zone[0], 'end': global_zone[1]})
